@@ -14,6 +14,7 @@ THEOREMS = [
     (NS + "C11_pool_gating", "full"),
     (NS + "C11_no_keepalive_before_connected", "full"),
     (NS + "C11_hello_reply_once", "full"),
+    (NS + "C11_short_hello_not_answered", "full"),
     (NS + "C11_update_every_iteration", "full"),
     (NS + "C11_loop_never_stalls", "full"),
 ]
@@ -32,7 +33,8 @@ ASSUMPTIONS = [
 ]
 RULE = ("the REAL server loop (see C10) with honest echo clients running throughout and hostile streams from many addresses: random bytes of "
         "every length 0..2000, valid headers with garbage bodies, truncated and complete hellos from strangers, everything also from "
-        "block-listed ips, damaged/stale/re-typed copies of genuine client datagrams with spoofed source address, at MTU 512 and 1500; "
+        "block-listed ips, damaged/stale/re-typed copies of genuine client datagrams with spoofed source address, at MTU 1500, 512 and the band "
+        "370..420 in which the padded hello is about as large as the server hello; "
         "compared with the model per iteration (events, sends, pools, entry drops); non-trivial = at least 10 hostile datagrams and one "
         "honest message delivered")
 
@@ -87,7 +89,7 @@ def run(ctx):
         try:
             lines, outs, recs, log = serverlib.gen_server_case(real, rng, cid, n_iter=rng.choice([40, 80]), n_clients=rng.choice([1, 2, 3]),
                                                                hostile=rng.choice([0.6, 0.85]), act_p=0.05, collide=0.1,
-                                                               mtu=rng.choice([1500, 1500, 512]), block=block, silent=0.01, leave=0.02)
+                                                               mtu=rng.choice([1500, 1500, 512, 512, 370, 375, 380, 389, 390, 395, 400, 420]), block=block, silent=0.01, leave=0.02)
         except Exception as e:           # the unmodified loop let an exception escape: that IS the property failing
             import traceback
             ctx.failure("server-loop-died", "an exception escaped the server loop: %s: %s" % (type(e).__name__, e),
@@ -107,5 +109,7 @@ def run(ctx):
     for c in cases:
         recs, log, block = extra[core.case_id(c)]
         monitor(c, outputs[core.case_id(c)], recs, log, ctx, block)
+        if not ctx.failures:
+            serverlib.honest_monitor(c, recs, log, ctx)
         if ctx.failures:
             return
